@@ -758,6 +758,48 @@ func tables() []table {
 
 var limits = []float64{0.7, 0.5, 0.78, 0.45, 0.2, 1.0, 0.0, 0.25}
 
+// FCase: the RSS finder-pattern acceptance test on four runs. Contract (ISO/IEC 24724 finder
+// proportions as upstream applies them): accept iff the first two runs make up between 9.5/12 and
+// 12.5/14 of the four (both ends included) and the widest run is less than ten times the narrowest.
+// Evaluated here in integer arithmetic; the answer cannot depend on a common scale factor.
+type FCase struct {
+	Counters []int `json:"counters"`
+	Scale    int   `json:"scale"`
+}
+
+func checkFinderRatio(raw json.RawMessage) error {
+	var c FCase
+	if err := json.Unmarshal(raw, &c); err != nil || len(c.Counters) != 4 || c.Scale < 1 {
+		return fmt.Errorf("hx: bad case")
+	}
+	cnt := make([]int, 4)
+	mn, mx := 1<<30, 0
+	for i, v := range c.Counters {
+		if v < 1 {
+			return fmt.Errorf("hx: bad case")
+		}
+		cnt[i] = v * c.Scale
+		mn, mx = min(mn, cnt[i]), max(mx, cnt[i])
+	}
+	f := cnt[0] + cnt[1]
+	sum := f + cnt[2] + cnt[3]
+	want := 24*f >= 19*sum && 28*f <= 25*sum && mx < 10*mn
+	in := append([]int(nil), cnt...)
+	var got bool
+	if pe := hx.Safe(func() error { got = rss.RSSReader_isFinderPattern(in); return nil }); pe != nil {
+		return fmt.Errorf("RSSReader_isFinderPattern(%v) panicked: %v", cnt, pe)
+	}
+	if got != want {
+		return fmt.Errorf("RSSReader_isFinderPattern(%v) = %v; first two runs are %d of %d (allowed 9.5/12 .. 12.5/14), widest %d, narrowest %d (must be < 10x): expected %v", cnt, got, f, sum, mx, mn, want)
+	}
+	for i := range in {
+		if in[i] != cnt[i] {
+			return fmt.Errorf("RSSReader_isFinderPattern(%v) modified its argument to %v", cnt, in)
+		}
+	}
+	return nil
+}
+
 func TestCheck(t *testing.T) {
 	hx.Main(t, "C20", func(c *hx.Ctx) {
 		c.Register("record", checkRecord)
@@ -766,6 +808,7 @@ func TestCheck(t *testing.T) {
 		c.Register("c128start", checkStart)
 		c.Register("digitrow", checkDigitRow)
 		c.Register("itfguard", checkGuard)
+		c.Register("finder_ratio", checkFinderRatio)
 	}, func(c *hx.Ctx) {
 		// (1) RecordPattern forward / reverse, rapid rows
 		rprop := func(rev bool, sub string) func(t *rapid.T) {
@@ -793,6 +836,56 @@ func TestCheck(t *testing.T) {
 				}
 			}
 		}
+		// (0) RSS finder acceptance: every vector of four runs 1..20 (exhaustive), and larger / scaled ones
+		{
+			fi := 0
+			for a := 1; a <= 20; a++ {
+				for b := 1; b <= 20; b++ {
+					fi++
+					if !c.Mine(fi) {
+						continue
+					}
+					for d := 1; d <= 20; d++ {
+						for e := 1; e <= 20; e++ {
+							cs := FCase{Counters: []int{a, b, d, e}, Scale: 1}
+							f, sum := a+b, a+b+d+e
+							nt := 24*f >= 19*sum && 28*f <= 25*sum
+							var key uint64
+							if nt {
+								raw, _ := json.Marshal(cs)
+								key = hx.Hash(raw)
+							}
+							c.Note("rss_finder_ratio_exhaustive", fmt.Sprintf("ratio_in_range=%v", nt), nt, key, func() any { return cs })
+							if !c.Enum("rss_finder_ratio_exhaustive", "finder_ratio", cs, nil) {
+								break
+							}
+						}
+					}
+				}
+			}
+			c.SetExhaustive("rss_finder_ratio_exhaustive", true)
+		}
+		c.Rapid("rss_finder_ratio_scaled", c.N(6000, 80000), func(t *rapid.T) {
+			// constructed so that the ratio test is passed most of the time: first two runs ~ 10/12 .. 12/14 of the whole
+			rest := [2]int{rapid.IntRange(1, 12).Draw(t, "c2"), rapid.IntRange(1, 12).Draw(t, "c3")}
+			f := (rest[0] + rest[1]) * rapid.IntRange(30, 95).Draw(t, "tenths") / 10
+			c0 := rapid.IntRange(1, max(1, f-1)).Draw(t, "c0")
+			if rapid.IntRange(0, 2).Draw(t, "narrow_first") == 0 {
+				c0 = rapid.IntRange(1, 3).Draw(t, "c0n")
+			}
+			cs := FCase{Counters: []int{c0, max(1, f-c0), rest[0], rest[1]}, Scale: rapid.IntRange(1, 9).Draw(t, "scale")}
+			ff, sum := cs.Counters[0]+cs.Counters[1], cs.Counters[0]+cs.Counters[1]+rest[0]+rest[1]
+			inr := 24*ff >= 19*sum && 28*ff <= 25*sum
+			mn, mx := 1<<30, 0
+			for _, v := range cs.Counters {
+				mn, mx = min(mn, v), max(mx, v)
+			}
+			raw, _ := json.Marshal(cs)
+			c.Note("rss_finder_ratio_scaled", fmt.Sprintf("ratio_in_range=%v;widest_ge_10x_narrowest=%v;scale>1=%v", inr, mx >= 10*mn, cs.Scale > 1), inr, hx.Hash(raw), func() any { return cs })
+			if err := c.Eval("finder_ratio", cs); err != nil {
+				t.Fatalf("%v", err)
+			}
+		})
 		c.Rapid("record_forward", c.N(6000, 60000), rprop(false, "record_forward"))
 		c.Rapid("record_reverse", c.N(6000, 60000), rprop(true, "record_reverse"))
 		// (1b) every start and counter length on a handful of fixed-shape rows (exhaustive in start, n)
